@@ -3,3 +3,6 @@ from tables import fp
 
 fp("dask/array/slicing.py", "normalize_slice", "_slice_1d", "new_blockdim", "posify_index", "check_index",
    "slice_slices_and_integers", "normalize_index", "replace_ellipsis")
+
+fp("dask/array/slicing.py", "parse_assignment_indices", "setitem_array", "setitem", "take")
+fp("dask/array/core.py", "Array.__setitem__", "Array.__getitem__")
